@@ -6,6 +6,7 @@ package main
 import (
 	"fmt"
 	"go/ast"
+	"go/types"
 	"os"
 	"sort"
 	"strings"
@@ -16,17 +17,34 @@ import (
 
 var consensusPkgs = map[string]bool{"dpos/state": true, "dpos/manager": true, "cr/state": true}
 
+var boundaryPrefixes = []string{"database", "p2p", "dpos/p2p", "elanet", "pow", "servers", "cmd", "utils/http", "utils/signal", "benchmark", "test"}
+
+func boundary(pkg string) bool {
+	for _, b := range boundaryPrefixes {
+		if pkg == b || strings.HasPrefix(pkg, b+"/") {
+			return true
+		}
+	}
+	return false
+}
+
 func main() {
 	ex.Header("C24")
 	pkgs := exg.Load(true, "./...")
 	g := exg.BuildGraph(pkgs, *ex.Repo)
+	// Storage, network and mining are the *environment* of the consensus code: their nodes are leaves.
+	g.MakeLeaves(func(n exg.Node) bool { return boundary(n.Pkg) })
 	var seeds []int
 	for i, n := range g.Nodes {
 		if consensusPkgs[n.Pkg] {
 			seeds = append(seeds, i)
 		}
 	}
+	ex.Comment("packages (and their sub-packages) whose nodes are leaves: the environment of the consensus code")
+	ex.DefStrList("boundaryPackages", boundaryPrefixes)
 	exg.EmitCert(g, seeds)
+	ex.Comment("every node of a seedable-generator package that occurs anywhere in the module graph: (id, encoded name)")
+	exg.EmitNamed("randNodes", g, func(n exg.Node) bool { return exg.Sensitive[n.Pkg] })
 	reach := g.Reach(seeds)
 	for i, n := range g.Nodes {
 		if reach[i] && (exg.Sensitive[n.Pkg] || n.Name == "time.Now") {
@@ -39,7 +57,7 @@ func main() {
 	}
 
 	// selection sites: every function of dpos/state that mentions math/rand, with what it mentions
-	ex.Comment("functions of the consensus packages that mention math/rand, and which of its objects (source order)")
+	ex.Comment("functions of the consensus packages that mention math/rand: which of its objects (source order), and whether the function mentions package time")
 	var rows []string
 	for _, p := range []string{"dpos/state", "dpos/manager", "cr/state"} {
 		pk := exg.Pkg(pkgs, p)
@@ -50,10 +68,22 @@ func main() {
 					continue
 				}
 				var uses []string
+				clock := false
 				ast.Inspect(fd.Body, func(x ast.Node) bool {
 					if id, ok := x.(*ast.Ident); ok {
-						if obj := pk.TypesInfo.Uses[id]; obj != nil && obj.Pkg() != nil && exg.Sensitive[obj.Pkg().Path()] {
-							uses = append(uses, obj.Pkg().Path()+"."+obj.Name())
+						obj := pk.TypesInfo.Uses[id]
+						if obj == nil || obj.Pkg() == nil {
+							return true
+						}
+						if exg.Sensitive[obj.Pkg().Path()] {
+							if fn, ok := obj.(*types.Func); ok {
+								uses = append(uses, exg.FuncName(fn))
+							} else {
+								uses = append(uses, obj.Pkg().Path()+"."+obj.Name())
+							}
+						}
+						if obj.Pkg().Path() == "time" {
+							clock = true
 						}
 					}
 					return true
@@ -63,13 +93,26 @@ func main() {
 					if r := ex.RecvName(fd); r != "" {
 						name = r + "." + name
 					}
-					rows = append(rows, fmt.Sprintf("(%s, %s)", ex.LeanStr(p+"."+name), ex.StrList(uses)))
+					rows = append(rows, fmt.Sprintf("(%s, %s, %v)", ex.LeanStr(p+"."+name), ex.StrList(uses), clock))
 				}
 			}
 		}
 	}
 	sort.Strings(rows)
-	fmt.Printf("def randSites : List (String × List String) := [%s]\n", strings.Join(rows, ",\n  "))
+	fmt.Printf("def randSites : List (String × List String × Bool) := [%s]\n", strings.Join(rows, ",\n  "))
+	ex.Comment("the `less` functions handed to sort.Slice by getSortedProducers / getSortedProducersDposV2 (source text)")
+	ds := exg.Pkg(pkgs, "dpos/state")
+	for _, fn := range []string{"getSortedProducers", "getSortedProducersDposV2"} {
+		fd := exg.FuncDecl(ds, "Arbiters."+fn)
+		var lits []string
+		ast.Inspect(fd.Body, func(x ast.Node) bool {
+			if c, ok := x.(*ast.CallExpr); ok && exg.CalleeName(ds, c) == "sort.Slice" && len(c.Args) == 2 {
+				lits = append(lits, exg.Src(ds, c.Args[1]))
+			}
+			return true
+		})
+		ex.DefStrList(fn+"Less", lits)
+	}
 	if os.Getenv("EXG_NAMES") != "" {
 		exg.EmitNames(g, reach)
 	}
